@@ -2260,9 +2260,11 @@ func (db *DB) Drop(ctx context.Context) (err error) {
 		return fmt.Errorf("delete shm file: %w", err)
 	}
 
-	// Reset database & WAL information.
+	// Reset database & WAL information. The page size is forgotten as well so
+	// that the database can be recreated later with a different one.
 	db.mode.Store(DBModeRollback)
 	db.pageN.Store(0)
+	db.pageSize = 0
 	db.wal.offset = 0
 	db.wal.chksum1 = 0
 	db.wal.chksum2 = 0
@@ -2592,6 +2594,12 @@ func (db *DB) ApplyLTXNoLock(path string, fatalOnError bool) (retErr error) {
 	// Rewrite SHM so that the transaction is visible.
 	if err := db.updateSHM(); err != nil {
 		return fmt.Errorf("update shm: %w", err)
+	}
+
+	// A dropped database forgets its page size so that it can be recreated
+	// later with a different one.
+	if dec.Header().Commit == 0 {
+		db.pageSize = 0
 	}
 
 	// Invalidate entire database if this was a snapshot.
